@@ -157,6 +157,7 @@ func Drive(chk *Check, o DriveOpts) int {
 		bins[b] = bin
 	}
 
+	netns := os.Getenv("VERIF_NO_NETNS") == "" && exec.Command("unshare", "-n", "--", "/bin/sh", "-c", "ip link set lo up").Run() == nil
 	agg := NewResult()
 	var inconclusive []string
 	var mu sync.Mutex
@@ -168,6 +169,7 @@ func Drive(chk *Check, o DriveOpts) int {
 	runShard := func(build string, shard, shards, n int) {
 		defer wg.Done()
 		from := 0
+		probeFirings := 0
 		for attempt := 0; attempt < 40; attempt++ {
 			sem <- struct{}{}
 			tag := fmt.Sprintf("%s-%d-%d", build, shard, attempt)
@@ -177,6 +179,12 @@ func Drive(chk *Check, o DriveOpts) int {
 				"--prop", chk.ID, "--tier", tier, "--build", build, "--seed", strconv.FormatUint(o.Seed, 10),
 				"--shard", strconv.Itoa(shard), "--shards", strconv.Itoa(shards), "--from", strconv.Itoa(from),
 				"--n", strconv.Itoa(n), "--out", out, "--only", strconv.Itoa(o.Only)}
+			if netns {
+				// every child gets its own network namespace: its own port space (no collisions with other
+				// children, other test runs on the machine, or TIME_WAIT left-overs) and a multicast-capable lo
+				args = append([]string{"-s", "QUIT", "-k", "20", strconv.Itoa(int(to.Seconds())), "unshare", "-n", "--", "/bin/sh", "-c",
+					"ip link set lo up; ip link set lo multicast on; ip route add 224.0.0.0/4 dev lo; exec \"$@\"", "sh"}, args[5:]...)
+			}
 			cmd := exec.Command("timeout", args...)
 			cmd.Dir = runDir
 			so, _ := os.Create(filepath.Join(runDir, tag+".stdout"))
@@ -229,7 +237,13 @@ func Drive(chk *Check, o DriveOpts) int {
 				return
 			}
 			if code == 3 {
-				// bounded-progress probe fired; violation is in the partial result
+				// a bounded-progress probe or the per-case watchdog fired; the violation is in the partial result.
+				// Every such firing costs its full bound in wall-clock time: after four of them this shard stops (the
+				// verdict is already a violation, exploring the rest would take hours).
+				probeFirings++
+				if probeFirings >= 4 {
+					return
+				}
 				from = last + 1
 				continue
 			}
@@ -338,6 +352,11 @@ func Drive(chk *Check, o DriveOpts) int {
 			fmt.Printf("HARNESS-SETUP property=%s occurrences=%d %s\n", chk.ID, a.count, oneLine(a.first.Msg))
 			continue
 		}
+		if key == "harness-case-stuck" {
+			inconclusive = append(inconclusive, "harness-case-stuck")
+			fmt.Printf("HARNESS-STUCK property=%s case=%d %s\n", chk.ID, a.first.Case, oneLine(a.first.Msg))
+			continue
+		}
 		if key == "harness-panic" {
 			inconclusive = append(inconclusive, "harness-panic")
 			fmt.Printf("HARNESS-PANIC property=%s case=%d %s\n%s\n", chk.ID, a.first.Case, a.first.Msg, a.first.Stack)
@@ -399,6 +418,7 @@ func Drive(chk *Check, o DriveOpts) int {
 		"builds":               builds,
 		"evaluations_by_build": perBuild,
 		"child_processes":      children,
+		"children_in_private_network_namespace": netns,
 		"exhaustive":           false,
 		"known_findings":       knownMatched,
 		"inconclusive_reasons": inconclusive,
